@@ -103,12 +103,41 @@ theorem filler_only_unknown_exact (strip : Int) (filler : List Line) (hin : ∀ 
       .ok (true, {}, { linesTillFirstHunk := 0, format := .unknown }, { s := { rest := filler }, lineNo := lineNo }) :=
   parseHeader_filler strip { s := { rest := filler }, lineNo := lineNo } {} hin hterm rfl rfl
 
-/-- trailing filler after the last section does not change what the section loop returns -/
-theorem parseAll_trailing_filler (strip : Int) (filler : List Line) (hin : ∀ l ∈ filler, inertLine l.content = true)
+/-- NEW with the `foundFirstHunk` rule of `parseHeader` (the formal counterpart of the fix in `parse_patch_header`):
+    a format given by option (-u / -c / -n, in fact ANY initial format) does not survive a scan that finds no hunk.
+    Over a stream of inert lines only, the header scan returns the patch it was given with `format = unknown` — exactly
+    the result of auto-detection — so the driver treats the text as trailing garbage instead of handing it to a body
+    parser.  (Before the change the result had `format = fmt`, and `parseAll fmt` went on to `parseBody`.) -/
+theorem forced_format_trailing_garbage (fmt : Format) (strip : Int) (filler : List Line)
+    (hin : ∀ l ∈ filler, inertLine l.content = true) (hterm : ∀ l ∈ filler, l.newline ≠ .none) (lineNo : Nat) :
+    parseHeader { s := { rest := filler }, lineNo := lineNo } { format := fmt } strip =
+      .ok (true, { format := .unknown }, { linesTillFirstHunk := 0, format := .unknown },
+           { s := { rest := filler }, lineNo := lineNo }) :=
+  parseHeader_filler strip { s := { rest := filler }, lineNo := lineNo } { format := fmt } hin hterm rfl rfl
+
+/-- the statement asked for, for the three formats an option can force -/
+theorem forced_format_trailing_garbage' (fmt : Format) (_hf : fmt = .unified ∨ fmt = .context ∨ fmt = .normal)
+    (strip : Int) (filler : List Line)
+    (hin : ∀ l ∈ filler, inertLine l.content = true) (hterm : ∀ l ∈ filler, l.newline ≠ .none) (lineNo : Nat) :
+    ∃ body p info par', parseHeader { s := { rest := filler }, lineNo := lineNo } { format := fmt } strip
+        = .ok (body, p, info, par') ∧ p.format = .unknown ∧ info.format = .unknown :=
+  ⟨_, _, _, _, forced_format_trailing_garbage fmt strip filler hin hterm lineNo, rfl, rfl⟩
+
+/-- the same for any patch record the scan is started with (all other fields come back untouched) -/
+theorem forced_format_trailing_garbage_any (pt : Patch) (strip : Int) (par : Parser)
+    (hin : ∀ l ∈ par.s.rest, inertLine l.content = true) (hterm : ∀ l ∈ par.s.rest, l.newline ≠ .none)
+    (hflags : par.s.eof = false ∧ par.s.bad = false) :
+    parseHeader par pt strip = .ok (true, { pt with format := .unknown }, { linesTillFirstHunk := 0, format := .unknown }, par) :=
+  parseHeader_filler strip par pt hin hterm hflags.1 hflags.2
+
+/-- trailing filler after the last section does not change what the section loop returns —
+    STRENGTHENED: for every format option (was: only for `format = unknown`, i.e. auto-detection) -/
+theorem parseAll_trailing_filler (format : Format) (strip : Int) (filler : List Line)
+    (hin : ∀ l ∈ filler, inertLine l.content = true)
     (hterm : ∀ l ∈ filler, l.newline ≠ .none) (acc : List Patch) (lineNo : Nat) (fuel : Nat) :
-    ∃ par', parseAll .unknown strip (fuel + 1) { s := { rest := filler }, lineNo := lineNo } acc = .ok (acc, par', false) := by
+    ∃ par', parseAll format strip (fuel + 1) { s := { rest := filler }, lineNo := lineNo } acc = .ok (acc, par', false) := by
   refine ⟨{ s := { rest := filler }, lineNo := lineNo }, ?_⟩
-  rw [parseAll, parseHeader_filler strip { s := { rest := filler }, lineNo := lineNo } { format := .unknown } hin hterm rfl rfl]
+  rw [parseAll, parseHeader_filler strip { s := { rest := filler }, lineNo := lineNo } { format := format } hin hterm rfl rfl]
   simp
 
 end PatchModel.C11
@@ -119,4 +148,7 @@ end PatchModel.C11
 #print axioms PatchModel.C11.headerLoop_filler_git
 #print axioms PatchModel.C11.filler_only_unknown
 #print axioms PatchModel.C11.filler_only_unknown_exact
+#print axioms PatchModel.C11.forced_format_trailing_garbage
+#print axioms PatchModel.C11.forced_format_trailing_garbage'
+#print axioms PatchModel.C11.forced_format_trailing_garbage_any
 #print axioms PatchModel.C11.parseAll_trailing_filler
